@@ -516,6 +516,83 @@ Example C17_dispatch_example :
   seg_retries 1 (snd (drun KeyTransaction c evs)) = 4.
 Proof. vm_compute. repeat split; reflexivity. Qed.
 
+(* The dispatch suite EVALUATES that front-end: its cases are raw
+   ([case_dispatch]: per transaction the transaction id, the sequence id header
+   of the request if present, whether the real dispatcher answered the request
+   itself, the provider's status otherwise; plus the answers observed).  Which
+   sequence a transaction is charged to and whether it opens it is derived by
+   the model — [dx_seq] (header, else the transaction id) and Ident's own
+   [dev_gev KeySequence] — and it is what the client sees: *)
+Theorem C17_dispatch_identification : forall es t,
+  dx_ident es t = [(dx_seq t, dxId t =? dx_seq t, if dxEarly t then es else dxProv t)].
+Proof. exact dx_ident_client. Qed.
+Print Assumptions C17_dispatch_identification.
+
+(* A case the suite accepts ([run_dispatch k = None], evaluated by vm_compute
+   on every case of every check run) is a run of the dispatcher machine of
+   Ident.v on the raw transactions — the machine C17_dispatch_bound is about —
+   answered as the real dispatcher answered, under the ids of the client's
+   transactions; it is a run of the general policy machine, the policy suite's
+   own function accepts the derived policy case, and the Go mirror the monitor
+   reads (ident.go:dispatchAsPolicy) identified every transaction alike. *)
+Theorem C17_accepted_dispatch_case_is_a_policy_run : forall k,
+  run_dispatch k = None ->
+  let c := dc_cfg k in
+  let tr := snd (drun KeySequence c (dispatch_history k)) in
+  dcOuts k = map (fun x => pout_code (r_out x)) tr /\
+  map (fun x => (r_seq x, r_new x, r_status x)) tr =
+    map (fun t => (dx_seq t, dxId t =? dx_seq t, if dxEarly t then dcEarlyStatus k else dxProv t))
+        (dcTxns k) /\
+  drun KeySequence c (dispatch_history k) = grun c (map (dev_gev KeySequence) (dispatch_history k)) /\
+  run_policy (dispatch_policy_case k) = None /\
+  dcMirror k = dc_ident k.
+Proof.
+  intros k H c tr. destruct (run_dispatch_accepted k H) as [Hm [Ho Hi]].
+  repeat split; [exact Ho | exact Hi | apply drun_keyseq | exact (run_dispatch_policy k H) | exact Hm].
+Qed.
+Print Assumptions C17_accepted_dispatch_case_is_a_policy_run.
+
+(* The bound restated on what the suite holds in its hands: in an accepted
+   case, after any number n of transactions, for every sequence s, the "retry"
+   answers (code 0) given to transactions of s since the latest transaction
+   that opened it (transaction id = sequence id, e.g. no sequence id header) are
+   at most max(attempts, 0) — whatever mix of gateway-made and provider
+   responses.  No hypothesis on the case besides its acceptance. *)
+Theorem C17_accepted_dispatch_case_bound : forall k,
+  run_dispatch k = None ->
+  forall s n,
+    0 <= raw_seg_retries s (firstn n (combine (dcTxns k) (dcOuts k))) <= Z.max 0 (dcAttempts k).
+Proof. exact run_dispatch_bound. Qed.
+Print Assumptions C17_accepted_dispatch_case_bound.
+
+(* Acceptance is satisfiable on a non-trivial case (header absent / present /
+   naming the transaction itself, gateway-made and provider responses, budget
+   used up) and is NOT vacuous: the same transactions with the answers of the
+   transaction-keyed variant, or with a mirror that calls a retry "opening",
+   are rejected. *)
+Definition dispatch_case_example (mirror4 : bool) (outs : list Z) : case_dispatch :=
+  {| dcAttempts := 2; dcCooldown := 1; dcMult := 2; dcRanges := [(429, 429); (500, 599)];
+     dcEarlyStatus := 503;
+     dcTxns := [ {| dxId := 1; dxSeqHdr := None; dxEarly := true; dxProv := 500 |};
+                 {| dxId := 1001; dxSeqHdr := Some 1; dxEarly := true; dxProv := 500 |};
+                 {| dxId := 2; dxSeqHdr := Some 2; dxEarly := false; dxProv := 500 |};
+                 {| dxId := 1002; dxSeqHdr := Some 1; dxEarly := true; dxProv := 500 |};
+                 {| dxId := 1003; dxSeqHdr := None; dxEarly := true; dxProv := 500 |};
+                 {| dxId := 1004; dxSeqHdr := Some 2; dxEarly := false; dxProv := 200 |} ];
+     dcMirror := [(1, true, 503); (1, false, 503); (2, true, 500); (1, mirror4, 503);
+                  (1003, true, 503); (2, false, 200)];
+     dcOuts := outs |}.
+
+Example C17_dispatch_case_example :
+  run_dispatch (dispatch_case_example false [0; 0; 0; 1; 0; 1]) = None /\
+  raw_seg_retries 1 (combine (dcTxns (dispatch_case_example false [])) [0; 0; 0; 1; 0; 1]) = 2 /\
+  run_dispatch (dispatch_case_example false [0; 0; 0; 0; 0; 1]) <> None /\
+  run_dispatch (dispatch_case_example true [0; 0; 0; 1; 0; 1]) <> None /\
+  map (fun x => pout_code (r_out x))
+      (snd (drun KeyTransaction (dc_cfg (dispatch_case_example false []))
+                 (dispatch_history (dispatch_case_example false [])))) = [0; 0; 0; 0; 0; 1].
+Proof. vm_compute. repeat split; try reflexivity; discriminate. Qed.
+
 (* FLOWS MODE through the stream constructor.  Every response carries a body
    that can or cannot be decoded.  For the constructor as it is (the sequence id
    is kept on the decode-error path) the body is irrelevant: the run is the run
